@@ -685,6 +685,9 @@ func (p *H265PACIPacket) Unmarshal(payload []byte) ([]byte, error) {
 
 	if headerExtensionSize > 0 {
 		p.phes = payload[:headerExtensionSize]
+	} else {
+		// no header extension in this packet, do not keep the one of an earlier packet
+		p.phes = nil
 	}
 
 	payload = payload[headerExtensionSize:]
